@@ -450,9 +450,12 @@ func ruleRef(ref string) (id string, scopes []string, floor int) {
 		id = ref[:i]
 		rest := ref[i+1:]
 		floor = 1
-		if j := strings.IndexByte(rest, '#'); j >= 0 {
-			fmt.Sscanf(rest[j+1:], "%d", &floor)
-			rest = rest[:j]
+		// a trailing "#<number>" is the floor; constructs themselves may contain '#'
+		if j := strings.LastIndexByte(rest, '#'); j >= 0 {
+			if n, err := strconv.Atoi(rest[j+1:]); err == nil {
+				floor = n
+				rest = rest[:j]
+			}
 		}
 		scopes = strings.Split(rest, ";")
 	}
